@@ -425,6 +425,8 @@ def run(repo: Repo, rep):
     r4_branch_cache(repo, rep)
     from .c17 import r3_necessary_variables  # conditions share base domains: building `plate - hole(t)` for one condition must not write the hole's variables into `plate`
     r3_necessary_variables(repo, rep)
+    from .c04 import r11_preevaluated_data_shape  # repeatable: a static sampler's pre-evaluated data must give the loss the same points give when drawn afresh
+    r11_preevaluated_data_shape(repo, rep)
     from .c16 import r2_shuffle_coupling  # data sets shuffle copies: the user's tensors (shared with other conditions / loaders) keep their order
     r2_shuffle_coupling(repo, rep)
 
